@@ -108,7 +108,18 @@ MUTABLES = [
 MUTABLES_Q = [("list", [1, 2, 3]), ("list", [3, 1, 2, 1]), ("list", ["a", "bc"]), ("list", [[1, 2], [3, 4]]),
               ("list", [[1, 2, 3], [4, 5, 6], [7, 8, 9]]), ("lazy", [1, 2, 3], 0), ("lazy", [[1, 2], [3, 4]], 0),
               ("lazy", [3, 1, 2], 1), ("fun", "λ2+;"), ("fun", "⁽+")]
-MUTABLES_3 = [("list", [1, 2, 3]), ("list", [[1, 2], [3, 4]]), ("lazy", [1, 2, 3], 0), ("lazy", [[1, 2], [3]], 1), ("fun", "λ2+;")]
+# shapes of matrices and nests, for EVERY element (a helper that pads / walks rows writes into a
+# row only when the shape makes it): ragged, tall, wide, empty rows, depth 3, lazy rows over
+# kept sources ({"L": items} is a LazyList node), a lazy list of eager rows
+SHAPES = [
+    ("nest", [[1, 2], [3]]), ("nest", [[1], [2], [3]]), ("nest", [[1, 2, 3]]), ("nest", [[], [1]]),
+    ("nest", [[[1], [2, 3]], [[4]]]), ("nest", [{"L": [1, 2]}, {"L": [3]}]), ("nest", {"L": [[1, 2], [3]]}),
+    ("nest", [[1, 2], [3, 4], [5, 6]]), ("nest", [[1, 2], [3], []]), ("nest", [[1, 2, 3], [4]]),
+    ("nest", [[0, 1], {"L": [2]}, [[3]]]), ("nest", {"L": [{"L": [1]}, [2, 3]]}),
+]
+SHAPES_Q = SHAPES[:7]
+SHAPE_PARTNERS = [("int", 0), ("int", 2), ("str", "abc"), ("list", [1, 2, 3])]
+MUTABLES_3 = [("nest", [[1, 2], [3]]), ("list", [1, 2, 3]), ("list", [[1, 2], [3, 4]]), ("lazy", [1, 2, 3], 0), ("lazy", [[1, 2], [3]], 1), ("fun", "λ2+;")]
 SCALARS_3 = [("int", 0), ("int", 2), ("str", "ab"), ("rat", 1, 2)]
 
 SKIP_KEYS = {
@@ -174,10 +185,26 @@ def vy_scalar(spec):
     return spec[1]
 
 
+def build_nest(x):
+    """-> (value, plain source): {"L": items} becomes a LazyList over a list the harness keeps"""
+    from vyxal.LazyList import LazyList
+    if isinstance(x, dict):
+        pairs = [build_nest(i) for i in x["L"]]
+        src = [p[0] for p in pairs]                 # the list object the LazyList reads: kept
+        return LazyList(src), src
+    if isinstance(x, list):
+        pairs = [build_nest(i) for i in x]
+        return [p[0] for p in pairs], [p[1] for p in pairs]
+    return x, x
+
+
 def build(spec):
     """-> (value handed to the element, source list kept by the harness or None)"""
     from vyxal.LazyList import LazyList
     k = spec[0]
+    if k == "nest":
+        v, src = build_nest(spec[1])
+        return v, (src if "L" in json.dumps(spec[1]) else None)
     if k in ("int", "rat", "str"):
         return vy_scalar(spec), None
     if k == "list":
@@ -196,7 +223,24 @@ def build(spec):
     raise AssertionError(spec)
 
 
+def nest_depth(x):
+    if isinstance(x, dict):
+        x = x["L"]
+    return 1 + max([nest_depth(i) for i in x if isinstance(i, (list, dict))] + [0]) if isinstance(x, (list, dict)) else 0
+
+
 def spec_kind(spec):
+    if spec[0] == "nest":
+        x = spec[1]
+        txt = json.dumps(x)
+        if "L" in txt:
+            return "lazy-list-of-rows" if isinstance(x, dict) else "eager-list-with-lazy-rows"
+        if nest_depth(x) >= 3:
+            return "depth-3"
+        lens = {len(r) for r in x if isinstance(r, list)}
+        if len(lens) > 1:
+            return "ragged"
+        return "tall" if len(x) > max(lens | {0}) else "wide"
     if spec[0] == "list":
         return "nested-eager" if any(isinstance(i, list) for i in spec[1]) else "flat-eager"
     if spec[0] == "lazy":
@@ -204,7 +248,17 @@ def spec_kind(spec):
     return spec[0]
 
 
+def nest_text(x):
+    if isinstance(x, dict):
+        return "LazyList([" + ", ".join(nest_text(i) for i in x["L"]) + "])"
+    if isinstance(x, list):
+        return "[" + ", ".join(nest_text(i) for i in x) + "]"
+    return repr(x)
+
+
 def spec_text(spec):
+    if spec[0] == "nest":
+        return nest_text(spec[1])
     if spec[0] == "lazy":
         return f"LazyList({spec[1]})" + (f" after {spec[2]} next()" if spec[2] else "")
     if spec[0] == "rat":
@@ -316,20 +370,31 @@ def elem_case_(item):
     return ("bad" if bad else "ok", {"error": err, "bad": bad})
 
 
-def arg_tuples(arity, env):
-    q = not env.thorough
+def arg_tuples(arity, env, intense=False):
+    """intense: the argument set of the thorough tier plus every shape, used on every run for the
+    elements the static summary flags (a pinned suspect is where a regression hides from the
+    table theorem)"""
+    q = not env.thorough and not intense
     if arity == 1:
-        return [(m,) for m in (MUTABLES_Q if q else MUTABLES)]
+        return [(m,) for m in ((MUTABLES_Q + SHAPES_Q) if q else (MUTABLES + SHAPES))]
     if arity == 2:
         mut = MUTABLES_Q if q else MUTABLES
         sca = SCALARS_Q if q else SCALARS
         out = [(a, b) for a in mut for b in mut + sca] + [(a, b) for a in sca for b in mut]
+        shapes = SHAPES_Q if q else SHAPES
+        partners = SHAPE_PARTNERS if q else (mut + sca)
+        for sh in shapes:
+            out += [(sh, b) for b in partners] + [(b, sh) for b in partners] + [(sh, sh)]
+            if not q:
+                out += [(sh, o) for o in shapes if o != sh]
         return out
     if arity == 3:
         pool = MUTABLES_3 + SCALARS_3
         out = [t for t in itertools.product(pool, repeat=3) if any(x in MUTABLES_3 for x in t)]
         if q:
-            out = env.rng.sample(out, 260)
+            out = env.rng.sample(out, 300)
+        elif intense:
+            out += [(sh, a, b) for sh in SHAPES for a in SCALARS_3 + MUTABLES_3[:2] for b in SCALARS_3 + MUTABLES_3[-1:]]
         return out
     return []
 
@@ -346,7 +411,7 @@ def part1(env, E, static):
         if arity not in (1, 2, 3):
             skipped[key] = f"arity {arity}"
             continue
-        ts = arg_tuples(arity, env)
+        ts = arg_tuples(arity, env, intense=key in static["flagged_elements"])
         env.rng.shuffle(ts)            # so that an element that loops on one kind of argument still sees the others
         for t in ts:
             items.append((key, t))
@@ -392,6 +457,7 @@ def part1(env, E, static):
                          msg)
     env.count(len(items), nontrivial)
     env.note("part1", {"cases": len(items), "elements": len({k for k, _ in items}), "seconds": round(time.time() - t0, 1),
+                       "intensified_elements": [k for k in by_key if k in static["flagged_elements"]],
                        "argument_kinds": dict(kinds), "element_raised": sum(errors.values()),
                        "error_classes": dict(errors.most_common(8)), "timeouts": dict(timeouts),
                        "failing_elements": {k: len(v) for k, v in failing.items()}})
@@ -400,10 +466,151 @@ def part1(env, E, static):
 
 
 # ---------------------------------------------------------------------------------------
+# part 1b: the statically flagged FUNCTIONS called directly, on every run
+# ---------------------------------------------------------------------------------------
+
+# mutate the list they are given by design: that list is the interpreter's stack
+STACK_PRIMITIVES = {"pop": "pops from / pushes back to the stack it is given", "function_call": "its argument is the stack"}
+FILLERS = [("int", 2), ("list", [1, 2]), ("str", "ab")]
+
+
+def fn_case(item):
+    return own_alarm(fn_case_, item, 1.5)
+
+
+def fn_cases(item):
+    name, tuples = item
+    out, late = [], 0
+    for t in tuples:
+        if late >= 6:
+            out.append(("abandoned", None))
+            continue
+        r = fn_case((name, t))
+        late += r[0] == "timeout"
+        out.append(r)
+    return out
+
+
+def fn_case_(item):
+    """module-level function `name` applied to built arguments (positional, then ctx)"""
+    name, specs = item
+    ns = _ns()
+    import inspect
+    fn = ns.get(name)
+    if fn is None:
+        import vyxal.helpers as H
+        fn = getattr(H, name)
+    vals, kept, snaps = [], [], []
+    for sp in specs:
+        v, src = build(sp)
+        vals.append(v)
+        kept.append(src)
+        snaps.append(canon(src if src is not None else v))
+    kw = {}
+    if "ctx" in inspect.signature(fn).parameters:
+        kw["ctx"] = fresh_ctx([])
+    err = None
+    with contextlib.redirect_stdout(io.StringIO()):
+        try:
+            res = fn(*vals, **kw)
+            force_stack([res])
+        except _Late:
+            raise
+        except BaseException as e:  # noqa: BLE001
+            err = type(e).__name__
+    bad = []
+    for i, (v, src, snap, sp) in enumerate(zip(vals, kept, snaps, specs)):
+        if sp[0] in ("int", "rat", "str"):
+            continue
+        try:
+            now = canon(v)
+        except _Late:
+            raise
+        except BaseException as e:  # noqa: BLE001
+            now = ["raises", type(e).__name__]
+        if now != snap:
+            bad.append((i, spec_text(sp), show(snap), show(now) if now[0] != "raises" else now[1], "argument"))
+        elif src is not None and canon(src) != snap:
+            bad.append((i, spec_text(sp), show(snap), show(canon(src)), "source list of the lazy argument"))
+    return ("bad" if bad else "ok", {"error": err, "bad": bad})
+
+
+def part1b(env, an):
+    import inspect
+    ns = _ns()
+    import vyxal.helpers as H
+    work = collections.OrderedDict()
+    skipped = {}
+    shapes = [m for m in MUTABLES if m[0] != "fun"] + SHAPES
+    for name, ps in (an.get("flagged_functions") or {}).items():
+        if name in STACK_PRIMITIVES:
+            skipped[name] = STACK_PRIMITIVES[name]
+            continue
+        fn = ns.get(name) if "." not in name else None
+        if fn is None and "." not in name:
+            fn = getattr(H, name, None)
+        if fn is None or not inspect.isfunction(fn):
+            skipped[name] = "a method / not importable by name: reached through the elements only"
+            continue
+        sig = inspect.signature(fn)
+        req = [p.name for p in sig.parameters.values()
+               if p.name != "ctx" and p.kind in (p.POSITIONAL_ONLY, p.POSITIONAL_OR_KEYWORD) and p.default is p.empty]
+        flagged = {p["param"] for p in ps}
+        tuples = []
+        for pos, pname in enumerate(req):
+            if pname not in flagged:
+                continue
+            for sh in shapes:
+                for fill in FILLERS:
+                    tuples.append(tuple(sh if j == pos else fill for j in range(len(req))))
+        seen, uniq = set(), []
+        for t in tuples:
+            k = json.dumps(t)
+            if k not in seen:
+                seen.add(k)
+                uniq.append(t)
+        tuples = uniq
+        if tuples:
+            work[name] = tuples
+        else:
+            skipped[name] = "no flagged required positional parameter"
+    grouped = V.pmap(fn_cases, list(work.items()), timeout=900.0, procs=min(V.NPROC, 8), chunksize=1)
+    failing, n, late = {}, 0, 0
+    nontrivial = []
+    for (name, ts), (st, val) in zip(work.items(), grouped):
+        n += len(ts)
+        if st != "ok":
+            env.note("part1b_harness_error:" + name, str(val)[:200])
+            continue
+        for t, (status, d) in zip(ts, val):
+            if status in ("timeout", "abandoned"):
+                late += 1
+            elif status == "bad":
+                failing.setdefault(name, []).append((t, d))
+            elif not d["error"]:
+                nontrivial.append(f"f:{name}:{[spec_text(x) for x in t]}")
+    for name, lst in failing.items():
+        lst.sort(key=lambda x: sum(len(spec_text(y)) for y in x[0]))
+        t, d = lst[0]
+        i, what, before, after, where = d["bad"][0]
+        keys = [tm["key"] for tm in an["templates"] if tm["kind"] == "element" and tm["flagged"]
+                and any(name + "(" in b for b in tm["because"])]
+        cls = f"C10:{keys[0]}" if keys else f"C10:fn:{name}"
+        env.fail({"function": name, "args": [spec_text(x) for x in t]},
+                 f"{name}({', '.join(spec_text(x) for x in t)}): {where} {i} was {before}, is {after} after the call "
+                 f"({len(lst)} failing argument tuples; reached from elements {' '.join(keys) or '-'})", cls=cls)
+    env.count(n, nontrivial)
+    env.note("part1b", {"functions": {k: len(v) for k, v in work.items()}, "cases": n, "timeouts": late, "skipped": skipped,
+                        "failing": {k: len(v) for k, v in failing.items()}})
+    return failing
+
+
+# ---------------------------------------------------------------------------------------
 # part 2: copy programs
 # ---------------------------------------------------------------------------------------
 
 VALUES = [("⟨1|2|3⟩", "flat-eager"), ("⟨⟨1|2⟩|⟨3|4⟩⟩", "nested-eager"), ("3ɾ", "lazy"), ("⟨3|1|2⟩ƛ2*;", "lazy-map"),
+          ("⟨⟨1|2⟩|⟨3⟩⟩", "ragged-eager"),
           ("λ2+;", "fun")]
 # (name, prefix after the value, suffix, number of references pushed back)
 FORMS = [
@@ -512,7 +719,8 @@ def part2(env, E, static):
     if env.thorough:
         a3 = list(dict.fromkeys(CORE3 + [k for k in suspects if k in ("Ȧ", "Ḟ", "¨M", "*", "Þ℅", "²", "ÞD", "ÞḊ")] + LITERALS3))
         seqs += [t for t in itertools.product(a3, repeat=3)]
-    quick_forms = {"nested-eager": (0, 1, 2, 3, 4, 5), "flat-eager": (0, 1, 4), "lazy": (0, 1, 3), "lazy-map": (1,), "fun": (3,)}
+    quick_forms = {"nested-eager": (0, 1, 2, 3, 4, 5), "flat-eager": (0, 1, 4), "lazy": (0, 1, 3), "lazy-map": (1,), "fun": (3,),
+                   "ragged-eager": (0, 1, 3)}
     items = []
     for vi in range(len(VALUES)):
         for fi in range(len(FORMS)):
@@ -569,6 +777,108 @@ def part2(env, E, static):
 
 
 # ---------------------------------------------------------------------------------------
+# part 2b: values pushed FROM the context, then the context changes, the value is read last
+# ---------------------------------------------------------------------------------------
+
+# per context attribute that some template pushes as a whole: ways to fill it, the template that
+# pushes it, self-contained tokens that change it afterwards (they leave the stack below alone)
+SNAP = {
+    "global_array": {"setups": ["", "1⅛", "1⅛2⅛", "⟨1|2⟩⅛", "⟨1|2⟩⅛3ɾ⅛"], "mods": ["2⅛", "3⅛", "¼_", "⟨9⟩⅛", "Þ¾", "¾_", "¼⅛"]},
+    "register": {"setups": ["", "⟨1|2⟩£", "3ɾ£"], "mods": ["3£", "⟨9⟩£", "¥_", "¥0 9Ȧ£"]},
+}
+HOLDS = [("on the stack", "", ""), ("in a variable", "→a ", "←a "), ("in the register", "£", "¥"), ("under a copy", ":_", "")]
+
+
+def snap_case(item):
+    return own_alarm(snap_case_, item, 2.0)
+
+
+def snap_case_(item):
+    setup, push, hi, mods = item
+    _, hold, release = HOLDS[hi]
+    # what the push gives when it is looked at immediately
+    ns = dict(_ns())
+    stack = []
+    ns.update(stack=stack, ctx=fresh_ctx(stack))
+    with contextlib.redirect_stdout(io.StringIO()):
+        exec(code_of(setup + push), ns)
+    want = canon(ns["stack"][-1])
+    # the same, but looked at only after the context has been changed
+    ns = dict(_ns())
+    stack = []
+    ns.update(stack=stack, ctx=fresh_ctx(stack))
+    err = None
+    with contextlib.redirect_stdout(io.StringIO()):
+        exec(code_of(setup + push + hold), ns)
+        try:
+            for m in mods:
+                exec(code_of(m), ns)
+        except _Late:
+            raise
+        except BaseException as e:  # noqa: BLE001
+            err = type(e).__name__
+        if release:
+            del ns["stack"][:]
+            exec(code_of(release), ns)
+        got = canon(ns["stack"][-1] if release else ns["stack"][0])
+    if got == want:
+        return ("ok", err, None)
+    return ("bad", err, {"want": show(want), "got": show(got)})
+
+
+def part2b(env, an):
+    pushers = {}
+    for t in an.get("templates", []):
+        if t["kind"] == "element":
+            for attr, mat in t["ctx_pushes"]:
+                pushers.setdefault(attr, []).append(t["key"])
+    items = []
+    for attr, keys in pushers.items():
+        if attr not in SNAP:
+            env.proof_broken("a template pushes a context attribute the C10 oracle has no generator for", f"ctx.{attr} pushed by {keys}")
+            continue
+        mods = SNAP[attr]["mods"]
+        seqs = [(a,) for a in mods] + [(a, b) for a in mods for b in mods]
+        if env.thorough:
+            seqs += list(itertools.product(mods, repeat=3))
+        for key in keys:
+            for setup in SNAP[attr]["setups"]:
+                for hi in range(len(HOLDS)):
+                    if attr == "register" and HOLDS[hi][1] == "£":
+                        continue
+                    for sq in seqs:
+                        items.append((setup, key, hi, sq))
+    res = V.pmap(snap_case, items, timeout=900.0, procs=min(V.NPROC, 8), chunksize=64)
+    failing = collections.defaultdict(list)
+    nontrivial, late, raised = [], 0, 0
+    for (setup, key, hi, sq), (st, val) in zip(items, res):
+        if st != "ok":
+            env.note("part2b_harness_error", str(val)[:200])
+            continue
+        if val[0] == "timeout":
+            late += 1
+            continue
+        status, err, d = val
+        prog = setup + key + HOLDS[hi][1] + "".join(sq) + HOLDS[hi][2]
+        if err:
+            raised += 1
+        else:
+            nontrivial.append("s:" + prog)
+        if status == "bad":
+            failing[key].append((prog, HOLDS[hi][0], d))
+    for key, lst in failing.items():
+        lst.sort(key=lambda x: len(x[0]))
+        prog, hold, d = lst[0]
+        env.fail({"program": prog, "held": hold},
+                 f"program {prog}: the value pushed by {key} (kept {hold}, looked at last) should be {d['want']}, is {d['got']} "
+                 f"({len(lst)} failing programs)", cls=f"C10:{key}")
+    env.count(len(items), nontrivial)
+    env.note("part2b", {"programs": len(items), "pushers": pushers, "holds": [h[0] for h in HOLDS], "timeouts": late,
+                        "raised": raised, "failing": {k: len(v) for k, v in failing.items()}})
+    return {k: v[0] for k, v in failing.items()}
+
+
+# ---------------------------------------------------------------------------------------
 # part 3: the named programs, end to end
 # ---------------------------------------------------------------------------------------
 
@@ -588,6 +898,14 @@ NAMED = [
     ("⟨3|1|2⟩:s 0", 0, [3, 1, 2], "s"),
     ("⟨1|2|3⟩:4J 0", 0, [1, 2, 3], "J"),
     ("⟨1|2|3⟩D0 9Ȧ 0", 1, [1, 2, 3], "Ȧ"),
+    # the global array pushed, then changed, the pushed value read last
+    ("1⅛¾2⅛ 0", 0, [1], "¾"),
+    ("1⅛2⅛¾¼_ 0", 0, [1, 2], "¾"),
+    ("7⅛¾→a 8⅛←a 0", 0, [7], "¾"),
+    ("1⅛¾£2⅛3⅛¥ 0", 0, [1], "¾"),
+    # a ragged matrix through the determinant (pads rows)
+    ("⟨⟨1|2⟩|⟨3⟩⟩:ÞḊ_ 0", 0, [[1, 2], [3]], "ÞḊ"),
+    ("⟨⟨1|2⟩|⟨3⟩⟩→x ←x ÞḊ_←x 0", 0, [[1, 2], [3]], "ÞḊ"),
 ]
 
 
@@ -597,7 +915,9 @@ def part3(env):
     for prog, idx, want, blame in NAMED:
         r = runprog.run(prog)
         st = r["stack"]
-        wantc = ["list", [["int", str(x)] for x in want]]
+        def to_canon(x):
+            return ["list", [to_canon(i) for i in x]] if isinstance(x, list) else ["int", str(x)]
+        wantc = to_canon(want)
         got = st[idx] if st and idx < len(st) else None
         ok = got is not None and json.loads(json.dumps(got)) == wantc
         out.append({"program": prog, "stack": [show(x) if isinstance(x, list) and x and isinstance(x[0], str) else x for x in (st or [])],
@@ -673,10 +993,16 @@ def run(env):
     V.import_repo()
     import vyxal.elements as E
     f1 = part1(env, E, static)
+    f1b = part1b(env, an) if an.get("flagged_functions") else {}
     f2 = part2(env, E, static)
+    f2b = part2b(env, an)
     part3(env)
     # verdict per statically flagged element / function
-    dyn = set(f1) | set(f2)
+    dyn = set(f1) | set(f2) | set(f2b)
+    for name in f1b:
+        dyn |= {tm["key"] for tm in an["templates"] if tm["kind"] == "element" and tm["flagged"]
+                and any(name + "(" in b for b in tm["because"])}
+    env.note("context_attributes_changed_in_place", an.get("ctx_inplace"))
     verdicts = {}
     for t in an.get("templates", []):
         if t["kind"] == "element" and t["flagged"]:
